@@ -36,6 +36,9 @@ PROFILES = {
 }
 
 
+MAX_INSTANCES = 14  # = BOUNDS["quick"]["max_inst_o"] of vk/mon/compilers_harness.py
+
+
 class Case:
     __slots__ = ("key", "comp", "rec", "feats", "tags")
 
@@ -211,7 +214,139 @@ def inj_tcrm(rng, rec, tags):
     tags.add("fluent-valued-boolean-assignment-under-traj")
 
 
+def _objs_of(rec, t):
+    return [o for o, ot in rec["objects"] if _is_sub(rec, ot[1], t)]
+
+
+def _ensure_objects(rng, rec, t, n):
+    """Give type t at least n objects (own or inherited).  Fluents without a default that are fully initialised keep being
+    fully initialised: the new ground fluents get the value of a random initialised sibling."""
+    import itertools
+
+    new = []
+    while len(_objs_of(rec, t)) < n:
+        o = f"ro{len(rec['objects'])}"
+        rec["objects"].append([o, ["user", t]])
+        new.append(o)
+    if not new:
+        return
+    for f in rec["fluents"]:
+        if f["default"] is not None or not f["sig"]:
+            continue
+        donors = [iv for iv in rec["init"] if iv[0][1] == f["name"]]
+        have = {str(iv[0]) for iv in donors}
+        if not donors:
+            continue
+        for args in itertools.product(*[_objs_of(rec, pt[1]) for _, pt in f["sig"]]):
+            fe = ["f", f["name"]] + [["o", a] for a in args]
+            if any(a in new for a in args) and str(fe) not in have:
+                rec["init"].append([fe, copy.deepcopy(rng.choice(donors)[1])])
+
+
+def inj_grounder_relation(rng, rec, tags):
+    """A static Boolean relation of arity 2/3 with random (in general asymmetric) initial values, per-fluent default
+    true / false / undefined, used as a positive precondition over two or three *different* parameters (arguments in any
+    order, a parameter possibly twice, possibly the relation twice with permuted arguments, top-level or inside a
+    conjunction) of an action that moves a token -- a dynamic Boolean fluent -- from its first to its last parameter, so that
+    plans of length 2-3 need specific groundings (a walk in the relation)."""
+    import itertools
+
+    t = rng.choice(rec["types"])[0]
+    _ensure_objects(rng, rec, t, rng.choice([2, 2, 3, 3, 3]))
+    objs = _objs_of(rec, t)
+    arity = rng.choice([2, 3]) if len(objs) <= 2 else 2  # 3^3 ground fluents would exceed the oracle's size cap
+    mode = rng.choice(["true", "false", "false", "undef"])
+    dflt = {"true": ["b", True], "false": ["b", False], "undef": None}[mode]
+    rel = "sr"
+    _add_fluent(rec, rel, "bool", default=dflt, sig=[[f"x{i}", ["user", t]] for i in range(arity)])
+    dens = rng.choice([0.25, 0.4, 0.55])
+    n_true = 0
+    tuples = list(itertools.product(objs, repeat=arity))
+    for args in tuples:
+        val = rng.random() < dens
+        fe = ["f", rel] + [["o", a] for a in args]
+        if mode == "true":
+            if not val:
+                rec["init"].append([fe, ["b", False]])
+        elif mode == "false":
+            if val:
+                rec["init"].append([fe, ["b", True]])
+            elif rng.random() < 0.2:
+                rec["init"].append([fe, ["b", False]])
+        elif val or rng.random() < 0.8:
+            rec["init"].append([fe, ["b", val]])
+        n_true += val
+    # token: dynamic unary Boolean fluent, initially on one or two objects
+    tok = "tk"
+    _add_fluent(rec, tok, "bool", default=["b", False], sig=[["x0", ["user", t]]])
+    for o in rng.sample(objs, rng.choice([1, 1, 2]) if len(objs) > 2 else 1):
+        rec["init"].append([["f", tok, ["o", o]], ["b", True]])
+    # action parameters: 2 (or 3 when the grounding stays small), of type t or of a subtype of t that has objects
+    subs = [n for n, _ in rec["types"] if _is_sub(rec, n, t) and _objs_of(rec, n)]
+    npar = 3 if (len(objs) == 2 and rng.random() < 0.4) else 2
+    params = []
+    for i in range(npar):
+        pt = t if rng.random() < 0.8 else rng.choice(subs)
+        params.append([f"y{i}", ["user", pt]])
+    pn = [["p", p[0]] for p in params]
+
+    def atom():
+        # every position gets a parameter; at least two different parameters in most atoms
+        for _ in range(6):
+            args = [rng.choice(pn) for _ in range(arity)]
+            if len({a[1] for a in args}) >= 2 or rng.random() < 0.15:
+                break
+        return ["f", rel] + args
+
+    first = atom()
+    if rng.random() < 0.5:
+        first = ["f", rel] + (pn + [rng.choice(pn)])[:arity]  # the natural argument order
+    conds = [first]
+    if rng.random() < 0.4:
+        second = atom()
+        if second != first:
+            conds.append(second)
+            tags.add("static-relation-twice")
+    holder = ["f", tok, pn[0]]
+    extra = _bool_atom(rng, rec) if rng.random() < 0.25 else None
+    parts = conds + [holder] + ([extra] if extra else [])
+    x = rng.random()
+    if x < 0.4:
+        pre = parts
+    elif x < 0.7:
+        pre = [["and"] + parts]
+    else:
+        rng.shuffle(parts)
+        pre = [["and"] + parts[:2]] + parts[2:]
+    effs = [
+        {"kind": "assign", "fluent": ["f", tok, pn[0]], "value": ["b", False], "cond": None, "forall": []},
+        {"kind": "assign", "fluent": ["f", tok, pn[-1]], "value": ["b", True], "cond": None, "forall": []},
+    ]
+    if rng.random() < 0.3:
+        effs.append({"kind": "assign", "fluent": _bool_atom(rng, rec), "value": ["b", True], "cond": None, "forall": []})
+    # keep the problem inside the exhaustive oracle's size cap: grammar actions are dropped (last first) while the number of
+    # ground action instances exceeds the cap
+    def n_inst(a):
+        n = 1
+        for _, pt in a["params"]:
+            n *= len(_objs_of(rec, pt[1])) if pt[0] == "user" else (pt[2] - pt[1] + 1)
+        return n
+
+    act = {"name": "agr", "params": params, "pre": pre, "effects": effs}
+    while rec["actions"] and sum(n_inst(a) for a in rec["actions"]) + n_inst(act) > MAX_INSTANCES:
+        rec["actions"].pop()
+    rec["actions"].append(act)
+    if rng.random() < 0.5:
+        # goal candidates: the token on an object that does not hold it initially
+        rec["goals"] = [["f", tok, ["o", rng.choice(objs)]]]
+    tags.add(f"static-relation-precondition:arity{arity}:{mode}")
+    if any(len({a[1] for a in c[2:]}) < len(c[2:]) for c in conds):
+        tags.add("static-relation-param-twice")
+
+
 def inj_grounder(rng, rec, tags):
+    if rng.random() < 0.55:
+        return inj_grounder_relation(rng, rec, tags)
     t = rng.choice(rec["types"])[0]
     x = rng.random()
     mode = rng.choice(["true", "false", "undef"])
